@@ -28,7 +28,7 @@ KNOBS = {'n_min': 1, 'n_max': 4,
                   'per_instance_diff': 0.1, 'managed_p': 0.9},
          'actions': ['start_application', 'stop_application', 'restart_application', 'start_process', 'stop_process',
                      'restart_process', 'restart_sequence', 'kill_process', 'crash', 'wait'],
-         'disable_p': 0.1}
+         'disable_p': 0.1, 'crash_on_request_p': 0.06}
 
 
 def plan(tier, seed):
